@@ -26,6 +26,10 @@ Inductive case :=
     per step the model operation and whether the real delivery was accepted; at the end the real
     stores' projection: (denom creator, sub, admin), (erc20, bound denom creator, sub), (pending id, sender) *)
 | CHist (env : Z) (steps : list (oop * bool)) (admins : list (Z * Z * Z)) (binds : list (Z * Z * Z)) (pending : list (Z * Z))
+(** one message wrapped in [depth] levels of authz.MsgExec (grantee = its signer at every level), the
+    whole as the single top-level message of a transaction; fields as CDeliver *)
+| CNest (depth : Z) (kind : string) (auth : Z) (g : list (Z * Z)) (signers : list Z) (creator : Z)
+        (fields : list (string * Z)) (ext : list Z) (biz : bool) (o_ante o_ok : bool) (o_touched : list Z)
 (** decorator only, any message type *)
 | CAnte (kind : string) (g : list (Z * Z)) (signers : list Z) (creator : Z) (o_ante : bool)
 (** shape of the message type as the real codec sees it: 0 = signers resolved from metadata,
@@ -87,6 +91,22 @@ Definition check_hist (env : Z) (steps : list (oop * bool)) (admins binds : list
 Definition check (c : case) : bool :=
   match c with
   | CHist env steps admins binds pending => check_hist env steps admins binds pending
+  | CNest depth kind auth g signers creator fields ext biz o_ante o_ok o_touched =>
+    match find_spec kind Gen.C03.specs with
+    | None => false
+    | Some spec =>
+      let m := MkMsg signers creator fields ext in
+      if negb (ante_nested Gen.C03.ante_lookup_carried Gen.C03.max_nested_depth g [wrap (Z.to_nat depth) (NLeaf (spec, m))])
+      then negb o_ante && negb o_ok && same_set o_touched []
+      else match deliver auth g spec m empty_state with
+           | RejectedAnte => false
+           | RejectedGuard => o_ante && negb o_ok && same_set o_touched []
+           | Done _ =>
+             o_ante &&
+             (if biz then o_ok && same_set (minus (creator :: signers) o_touched) (minus (nobody :: creator :: signers) (targets auth m (ms_rows spec)))
+              else negb o_ok && same_set o_touched [])
+           end
+    end
   | CDeliver kind auth g signers creator fields ext biz o_ante o_ok o_touched =>
     match find_spec kind (Gen.C03.specs ++ Gen.C03.wasm_specs) with
     | None => false
